@@ -36,7 +36,14 @@ def run_one(p):
     out = {}
     try:
         kw = dict(temperature=p["temperature"], tanh_clipping=p["tanh_clipping"])
-        lp = D.process_logits(logits.clone(), mask.clone(), top_p=p["top_p"], top_k=p["top_k"], **kw)
+        if p.get("strategy"):  # through DecodingStrategy.step, all log-probabilities stored
+            from tensordict import TensorDict
+
+            st = D.Sampling(temperature=p["temperature"], top_p=p["top_p"], top_k=p["top_k"], tanh_clipping=p["tanh_clipping"], mask_logits=True, store_all_logp=True)
+            st.step(logits.clone(), mask.clone(), TensorDict({}, batch_size=[logits.shape[0]]))
+            lp = st.logprobs[-1]
+        else:
+            lp = D.process_logits(logits.clone(), mask.clone(), top_p=p["top_p"], top_k=p["top_k"], **kw)
         lp0 = D.process_logits(logits.clone(), mask.clone(), top_p=0.0, top_k=0, **kw)
         out["logprobs"], out["unfiltered"] = _l(lp), _l(lp0)
         if p.get("shift"):
